@@ -33,10 +33,10 @@ def impl_blocks(src):
     """Yield (header, body) for every top-level `impl … { … }`."""
     i = 0
     while True:
-        m = re.search(r"^impl\b", src[i:], flags=re.M)
+        m = re.search(r"^[ \t]*impl\b", src[i:], flags=re.M)
         if not m:
             return
-        start = i + m.start()
+        start = i + m.end() - 4
         brace = src.find("{", start)
         depth, j = 0, brace
         while j < len(src):
@@ -59,29 +59,84 @@ def lean_list(xs):
     return "[" + ", ".join(xs) + "]"
 
 
+def expanded_device_driver():
+    """The runtime crate after macro expansion (`rustc -Zunpretty=expanded` of the nightly toolchain), so that marker
+    types, capability impls and operations written through `macro_rules!` are read as what they expand to. Cached by the
+    hash of the crate's sources; None when the expansion is not available (then the sources are read as written)."""
+    import hashlib, subprocess
+    d = os.path.join(REPO, "device-driver")
+    h = hashlib.sha256()
+    for root, _, files in sorted(os.walk(os.path.join(d, "src"))):
+        for f in sorted(files):
+            h.update(f.encode()); h.update(open(os.path.join(root, f), "rb").read())
+    h.update(open(os.path.join(d, "Cargo.toml"), "rb").read())
+    work = os.path.join(os.path.dirname(os.path.dirname(os.path.abspath(__file__))), ".work")
+    cache = os.path.join(work, "expand", h.hexdigest()[:24] + ".rs")
+    if os.path.exists(cache):
+        return open(cache).read()
+    env = dict(os.environ, CARGO_TARGET_DIR=os.path.join(work, "target-expand"), CARGO_NET_OFFLINE="true")
+    try:
+        r = subprocess.run(["cargo", "+nightly", "rustc", "--offline", "-p", "device-driver", "--lib", "--", "-Zunpretty=expanded"],
+                           cwd=REPO, env=env, capture_output=True, text=True, timeout=900)
+    except Exception:
+        return None
+    if r.returncode != 0 or "RegisterOperation" not in r.stdout:
+        return None
+    os.makedirs(os.path.dirname(cache), exist_ok=True)
+    with open(cache, "w") as f:
+        f.write(r.stdout)
+    return r.stdout
+
+
+def split_impl_header(header):
+    """`impl<GENERICS> REST` -> (GENERICS, REST) with angle brackets matched."""
+    h = header.strip()
+    assert h.startswith("impl")
+    h = h[4:].lstrip()
+    if not h.startswith("<"):
+        return "", h
+    depth = 0
+    for i, ch in enumerate(h):
+        if ch == "<":
+            depth += 1
+        elif ch == ">" and h[i - 1] != "-":
+            depth -= 1
+            if depth == 0:
+                return h[1:i], h[i + 1:]
+    return "", h
+
+
 def caps():
-    lib = strip_comments(strip_tests(read("device-driver/src/lib.rs")))
-    readers = re.findall(r"impl\s+ReadCapability\s+for\s+(\w+)\s*\{\s*\}", lib)
-    writers = re.findall(r"impl\s+WriteCapability\s+for\s+(\w+)\s*\{\s*\}", lib)
-    markers = re.findall(r"pub struct (\w+);", lib)
+    exp = expanded_device_driver()
+    if exp is not None:
+        lib = strip_comments(exp)
+        sources = [(lib, "RegisterOperation"), (lib, "BufferOperation")]
+    else:
+        lib = strip_comments(strip_tests(read("device-driver/src/lib.rs")))
+        sources = [(strip_comments(strip_tests(read("device-driver/src/register.rs"))), "RegisterOperation"),
+                   (strip_comments(strip_tests(read("device-driver/src/buffer.rs"))), "BufferOperation")]
+    readers = re.findall(r"impl\s+(?:crate::)?ReadCapability\s+for\s+(\w+)\s*\{\s*\}", lib)
+    writers = re.findall(r"impl\s+(?:crate::)?WriteCapability\s+for\s+(\w+)\s*\{\s*\}", lib)
+    # the access markers are the unit structs at the crate root (the expansion also contains `ops::LE` / `ops::BE`, nested)
+    markers = re.findall(r"^pub struct (\w+);", lib, flags=re.M)
     ops = []
-    for f, owner in (("device-driver/src/register.rs", "RegisterOperation"), ("device-driver/src/buffer.rs", "BufferOperation")):
-        src = strip_comments(strip_tests(read(f)))
+    for src, owner in sources:
         for header, body in impl_blocks(src):
-            if owner not in header:
+            generics, rest = split_impl_header(header)
+            tr = re.match(r"\s*([\w:]+)\s+for\s+" + owner + r"\b", rest)
+            inherent = re.match(r"\s*" + owner + r"\b", rest)
+            if not tr and not inherent:
                 continue
-            where = header[header.find("where"):] if "where" in header else ""
-            m = re.search(r"Access\s*:\s*([\w\s+]+?)\s*(,|$)", where)
-            bound = m.group(1) if m else ""
+            # the capability bound on `Access`, written in the generic parameter list or in the where clause
+            bound = " ".join(re.findall(r"\bAccess\s*:\s*([\w\s+:]+?)\s*(?:,|$|\{)", generics + " , " + rest))
             need_r = "ReadCapability" in bound
             need_w = "WriteCapability" in bound
-            tr = re.search(r"impl<[^>]*>\s*([\w:]+)\s+for\s+" + owner, header)
             trait = tr.group(1) if tr else ""
             if trait.endswith("ErrorType"):
                 continue
             # the operations a user can call: public inherent methods, and every method of a trait impl
             # (private helpers of an inherent impl are not operations)
-            pat = r"(?:pub\s+)?(?:async\s+)?fn\s+(\w+)" if trait else r"pub\s+(?:async\s+)?fn\s+(\w+)"
+            pat = r"(?:pub\s+)?(?:async\s+)?fn\s+(\w+)" if trait else r"pub\s+(?:const\s+)?(?:async\s+)?fn\s+(\w+)"
             for fn in re.findall(pat, body):
                 if fn == "new":
                     continue
@@ -104,6 +159,25 @@ def integer_table():
             lo, hi = INT_LIMITS.get(ty, (None, None))
             out.setdefault(var, {})[which] = lo if lim == "MIN" else hi
     return out
+
+
+def integer_table_by_execution():
+    """Fallback when the arms cannot be read: build the harness against the working tree and let the real generator
+    say which addresses each type admits (`ddv-gen integer-table`)."""
+    import json, subprocess
+    verif = os.path.dirname(os.path.dirname(os.path.abspath(__file__)))
+    env = dict(os.environ, CARGO_NET_OFFLINE="true", CARGO_TARGET_DIR=os.path.join(verif, ".work", "target"))
+    try:
+        b = subprocess.run(["cargo", "build", "--offline", "--bin", "ddv-gen"], cwd=os.path.join(verif, "harness"), env=env,
+                           capture_output=True, text=True, timeout=1800)
+        if b.returncode != 0:
+            return {}
+        r = subprocess.run([os.path.join(verif, ".work", "target", "debug", "ddv-gen"), "integer-table"], env=env,
+                           capture_output=True, text=True, timeout=600)
+        t = json.loads(r.stdout.strip().splitlines()[-1])
+        return {k: {"min_value": int(v[0]), "max_value": int(v[1])} for k, v in t.items()}
+    except Exception:
+        return {}
 
 
 def dedup_rows():
@@ -154,6 +228,9 @@ def hash_iteration_sites():
 def main():
     markers, readers, writers, ops = caps()
     ints = integer_table()
+    if len(ints) < 7 or any(len(v) < 2 for v in ints.values()):
+        # not written as one `match` of `T::MIN` / `T::MAX` arms per function: ask the generator itself
+        ints = integer_table_by_execution() or ints
     rows = dedup_rows()
     order = pass_order()
     sites = hash_iteration_sites()
